@@ -227,7 +227,11 @@ def _cfg(**kw):
     # values so short that they round to 0 ticks (note-on and note-off on the same tick) or to 1 tick
     base["groups"] = base["groups"] + [[["num", k]] for k in (300, 577, 600, 1000, 1024, 2000)] + [[["num", 1000], [4, 0, 1, 1]], [["num", 640]] * 3]
     long_name = st.text(alphabet=st.characters(min_codepoint=32, max_codepoint=126), min_size=120, max_size=300)
-    base["text"] = st.one_of(base["text"], base["text"], base["text"], long_name)
+    # any 7-bit characters, control characters and NUL included (at the ends too): a name is a length-prefixed byte string
+    ctrl = st.text(alphabet=st.characters(min_codepoint=0, max_codepoint=127), min_size=1, max_size=8)
+    ends = st.builds(lambda a, m, z: a + m + z, st.sampled_from(["", "\x00", "\n", "\t", " ", "\x7f"]), st.text(alphabet="abcXYZ 09", max_size=6),
+                     st.sampled_from(["", "\x00", "\x00\x00", "\n", "\r\n", " ", "\x7f"]))
+    base["text"] = st.one_of(base["text"], base["text"], base["text"], long_name, ctrl, ends)
     base["twin_p"] = 5
     base["empty_track_p"] = 5
     base["subclass_p"] = 8
